@@ -27,7 +27,8 @@ Compute == \E e \in 1..Len(envs), p \in Pops, T \in TargetSets, r \in BOOLEAN :
               /\ hist' = Append(hist, [k |-> "compute", e |-> e, key |-> Key(e, p, T, r)])
               /\ UNCHANGED envs
 Vectorize == \E e \in 1..Len(envs), f \in Rules : hist' = Append(hist, [k |-> "vectorize", e |-> e, f |-> f]) /\ UNCHANGED envs
-Next == Len(hist) < MaxLen /\ (SetUp \/ Reform \/ Compute \/ Vectorize)
+More == Len(hist) < MaxLen
+Next == (More /\ SetUp) \/ (More /\ Reform) \/ (More /\ Compute) \/ (More /\ Vectorize)
 Spec == Init /\ [][Next]_vars
 \* the calls whose results the property speaks about
 Computes == {i \in 1..Len(hist) : hist[i].k = "compute"}
